@@ -2,28 +2,31 @@
 
 deepcopy/pickle forks of a world do not carry class-level or module-level variables.
 On the pinned tree the library has exactly two (Asset._id_counter, System._instance,
-both handled by the worlds); but a change that hoists per-object state to class or
-module scope (a shared list, a cached flag, a counter) would make forks interfere with
-each other.  Every such site -- non-callable, non-dunder attributes of simprocesd's
-modules and classes holding a primitive or a list/dict/set -- is therefore swapped in
-when a world is entered and swapped out when it is left, and is part of its digest.
+both handled by the worlds themselves); but a change that hoists per-object state to
+class or module scope (a shared list, a cached flag, a per-class counter) would make
+forks interfere with each other.  Every such site -- non-callable, non-dunder
+attributes holding a primitive or a list/dict/set, of simprocesd's modules, of its
+classes AND of every subclass of them (harness subclasses included, because
+`type(self).x += 1` creates the attribute on the subclass) -- is discovered dynamically,
+swapped in when a world is entered and swapped out (or deleted) when it is left, and is
+part of the world's digest.
 '''
 import copy
 import enum
 import importlib
 import pkgutil
+import sys
 import types
 
 import simprocesd
 
 _PRIM = (int, float, bool, str, type(None))
 _CONT = (list, dict, set)
-_SKIP = {('simprocesd.model.factory_floor.asset', 'Asset', '_id_counter'),
-         ('simprocesd.model.system', 'System', '_instance')}
+_SKIP = {'simprocesd.model.factory_floor.asset:Asset:_id_counter',
+         'simprocesd.model.system:System:_instance'}
 
 
-def _sites():
-    out = []
+def _modules():
     mods = []
     for m in pkgutil.walk_packages(simprocesd.__path__, 'simprocesd.'):
         if '.tests' in m.name:
@@ -32,48 +35,151 @@ def _sites():
             mods.append(importlib.import_module(m.name))
         except Exception:
             continue
-    seen = set()
-    for mod in mods:
-        for name, val in list(vars(mod).items()):
-            if name.startswith('__'):
-                continue
-            if isinstance(val, type) and val.__module__ == mod.__name__ and not issubclass(val, enum.Enum):
-                for an, av in list(vars(val).items()):
-                    if an.startswith('__') or callable(av) or isinstance(av, (property, staticmethod, classmethod)):
-                        continue
-                    if isinstance(av, _PRIM + _CONT):
-                        k = (mod.__name__, val.__name__, an)
-                        if k not in seen and k not in _SKIP:
-                            seen.add(k)
-                            out.append((k, val, an))
-            elif isinstance(val, _CONT) or (isinstance(val, (int, float)) and not isinstance(val, bool)
-                                            and not name.isupper()):
-                if getattr(mod, '__name__', '').startswith('simprocesd') and not isinstance(val, types.ModuleType):
-                    k = (mod.__name__, '', name)
-                    if k not in seen:
-                        seen.add(k)
-                        out.append((k, mod, name))
+    return mods
+
+
+_MODS = _modules()
+_ROOTS = []
+for _m in _MODS:
+    for _n, _v in list(vars(_m).items()):
+        if isinstance(_v, type) and _v.__module__ == _m.__name__ and not issubclass(_v, enum.Enum):
+            _ROOTS.append(_v)
+
+
+_CLS_CACHE = [None, -1]
+
+
+def _classes():
+    # the class population only grows when modules are imported; cache by the number of Asset subclasses
+    n = len(type.__subclasses__(_ROOTS[0])) if _ROOTS else 0
+    if _CLS_CACHE[0] is not None and _CLS_CACHE[1] == n:
+        return _CLS_CACHE[0]
+    seen = _classes_uncached()
+    _CLS_CACHE[0], _CLS_CACHE[1] = seen, n
+    return seen
+
+
+def _classes_uncached():
+    seen = {}
+    stack = list(_ROOTS)
+    while stack:
+        c = stack.pop()
+        k = f'{c.__module__}:{c.__qualname__}'
+        if k in seen:
+            continue
+        seen[k] = c
+        stack.extend(type.__subclasses__(c))
+    return seen
+
+
+def _default_funcs():
+    '''Library functions whose default arguments hold a mutable container (shared by every call in the process).'''
+    out = {}
+    def visit(owner_key, d):
+        for an, av in list(d.items()):
+            f = av.__func__ if isinstance(av, (staticmethod, classmethod)) else av
+            if isinstance(f, types.FunctionType) and f.__defaults__ and \
+                    any(isinstance(x, _CONT) for x in f.__defaults__):
+                out[f'{owner_key}.{an}:__defaults__'] = f
+    for m in _MODS:
+        visit(f'{m.__name__}:', {k: v for k, v in vars(m).items() if getattr(v, '__module__', None) == m.__name__})
+    for c in _ROOTS:
+        visit(f'{c.__module__}:{c.__qualname__}', vars(c))
     return out
 
 
-SITES = _sites()
-PRISTINE = {k: copy.deepcopy(getattr(owner, attr)) for k, owner, attr in SITES}
+_DEFAULT_FUNCS = _default_funcs()
+
+
+def _eligible(name, val):
+    if name.startswith('__') or name == '_canon_skip':
+        return False
+    if callable(val) or isinstance(val, (property, staticmethod, classmethod, types.ModuleType)):
+        return False
+    return isinstance(val, _PRIM + _CONT)
+
+
+def _scan():
+    '''Current values of every owned site: key -> (owner, attribute, value).'''
+    out = {}
+    for ck, c in _classes().items():
+        for an, av in list(vars(c).items()):
+            if _eligible(an, av):
+                k = f'{ck}:{an}'
+                if k not in _SKIP:
+                    out[k] = (c, an, av)
+    for m in _MODS:
+        for an, av in list(vars(m).items()):
+            if an.startswith('__') or an.isupper():
+                continue
+            if isinstance(av, _CONT) or (isinstance(av, (int, float)) and not isinstance(av, bool)):
+                out[f'{m.__name__}::{an}'] = (m, an, av)
+    for k, f in _DEFAULT_FUNCS.items():
+        out[k] = (f, '__defaults__', f.__defaults__)
+    return out
+
+
+PRISTINE = {k: copy.deepcopy(v[2]) for k, v in _scan().items()}
+SITES = sorted(PRISTINE)          # sites that exist at import time (none on the pinned tree)
 
 
 def fresh():
-    return {repr(k): copy.deepcopy(v) for k, v in PRISTINE.items()}
+    return {k: copy.deepcopy(v) for k, v in PRISTINE.items()}
+
+
+def _owner(key):
+    if key in _DEFAULT_FUNCS:
+        return _DEFAULT_FUNCS[key], '__defaults__'
+    mod, qual, attr = key.split(':')
+    if qual == '':
+        return sys.modules[mod], attr
+    return _classes()[f'{mod}:{qual}'], attr
+
+
+def _install(values):
+    cur = _scan()
+    for k, (owner, attr, _) in cur.items():
+        if k not in values:
+            delattr(owner, attr)
+    for k, v in values.items():
+        owner, attr = _owner(k)
+        setattr(owner, attr, v)
+    return {k: v[2] for k, v in cur.items()}
+
+
+def _fingerprint():
+    '''Cheap change detector: number of attributes of every class and module in scope.'''
+    return tuple(len(vars(c)) for c in _classes().values()) + tuple(len(vars(m)) for m in _MODS)
+
+
+_FP0 = None
 
 
 def enter(gvals):
-    '''Install a world's values; returns what has to be put back.'''
-    saved = []
-    for k, owner, attr in SITES:
-        saved.append(getattr(owner, attr))
-        setattr(owner, attr, gvals[repr(k)])
-    return saved
+    '''Install a world's values; returns what has to be put back (None on the fast path: nothing owned anywhere).'''
+    global _FP0
+    if _FP0 is None:
+        _FP0 = _fingerprint()
+    if not gvals and not PRISTINE:
+        fp = _fingerprint()
+        if fp == _FP0:
+            return None
+        if not _scan():
+            _FP0 = fp                    # harmless growth (e.g. pickle's __slotnames__ cache): re-arm the fast path
+            return None
+    return _install(gvals)
 
 
 def leave(gvals, saved):
-    for (k, owner, attr), old in zip(SITES, saved):
-        gvals[repr(k)] = getattr(owner, attr)
-        setattr(owner, attr, old)
+    global _FP0
+    if saved is None:
+        fp = _fingerprint()
+        if fp == _FP0:
+            return                       # nothing appeared while the world was entered
+        if not _scan():
+            _FP0 = fp
+            return
+        saved = {}
+    now = _install(saved)
+    gvals.clear()
+    gvals.update(now)
